@@ -202,24 +202,6 @@ def _xer_cr(ctx):
     return any('\r' in s for s in _strings(jsonio.dec(ctx.case.get('value'))))
 
 
-@finding(BINARY + ('C02',), 'named-bits-default-size')
-def _named_bits_default_size(ctx):
-    # constraints_checker.py BitString: a named-bit BIT STRING DEFAULT { names } shorter than the SIZE
-    # lower bound is returned by decoders as-is and then rejected by check_constraints
-    for n in ctx.tnodes():
-        m = n.member
-        if m is None or not m.has_default or n.r.base.kind != 'BIT STRING' or not n.r.base.named_bits:
-            continue
-        if n.r.size is None or n.r.size.ext or not (m.default_txt or '').startswith('{'):
-            continue
-        names = [x.strip() for x in m.default_txt.strip('{} ').split(',') if x.strip()]
-        nb = dict(n.r.base.named_bits)
-        need = max([nb[x] for x in names] + [-1]) + 1
-        if n.r.size.lo is not None and need < n.r.size.lo:
-            return True
-    return False
-
-
 @finding(BINARY, 'per-from-overlap')
 def _per_from_overlap(ctx):
     # per.py get_permitted_alphabet: overlapping FROM items are counted twice
@@ -398,4 +380,92 @@ def _root2_before_additions(ctx):
         b = n.r.base
         if b.kind == 'SEQUENCE' and b.root2 and b.ext:
             return True
+    return False
+
+
+@finding('C05', 'per-empty-complete-encoding')
+def _per_empty(ctx):
+    # per.py Encoder.as_bytearray: a value that encodes to zero bits yields b''; X.691 10.1.3 makes the
+    # complete encoding a single zero octet
+    return bool(ctx.case.get('zero_bits')) and ctx.f.kind == 'not-x691'
+
+
+@finding(('C05', 'C09'), 'per-choice-root-order')
+def _per_choice_order(ctx):
+    # per.py Choice: the index of a root alternative is its position in the definition; X.691 23.1
+    # numbers the alternatives in the canonical order of their tags (X.680 8.6)
+    if ctx.codec not in ('per', 'uper'):
+        return False
+    from .model.tlv import tag_key
+    for n in ctx.tnodes():
+        b = n.r.base
+        if b.kind != 'CHOICE':
+            continue
+        keys = [min(tag_key(c, num) for c, num in asn.member_outer_tag_set(ctx.spec, m, n.r.mod))
+                for m in (b.root or [])]
+        if keys != sorted(keys):
+            return True
+    return False
+
+
+@finding('C05', 'per-universalstring-size-ignored')
+def _per_universal_size(ctx):
+    # per.py UniversalString is a plain StringType: its SIZE constraint (PER-visible, known-multiplier
+    # type of 32 bits per character, X.691 30) is ignored and an unconstrained length is written
+    if ctx.codec not in ('per', 'uper'):
+        return False
+    return any(n.r.base.kind == 'UniversalString' and n.r.size is not None for n in ctx.tnodes())
+
+
+@finding(('C05', 'C07'), 'per-empty-open-type')
+def _per_empty_open_type(ctx):
+    # per.py encode_additions / Choice.encode_additions: an extension addition whose value encodes to zero
+    # bits is wrapped with length 0; X.691 10.2.1/10.1.3 make every open type at least one (zero) octet
+    if ctx.codec not in ('per', 'uper'):
+        return False
+    from . import common
+    for n in ctx.vnodes():
+        b = n.r.base
+        if b.kind in ('SEQUENCE', 'SET') and isinstance(n.value, dict):
+            for a in (b.ext or []):
+                for m in (a.members if isinstance(a, asn.Group) else [a]):
+                    if m.name in n.value and common.zero_width(ctx.spec, m.ty, n.r.mod) \
+                            and not isinstance(a, asn.Group):
+                        return True
+        if b.kind == 'CHOICE' and isinstance(n.value, tuple):
+            for a in (b.ext or []):
+                for m in (a.members if isinstance(a, asn.Group) else [a]):
+                    if m.name == n.value[0] and common.zero_width(ctx.spec, m.ty, n.r.mod):
+                        return True
+    return False
+
+
+@finding(('C05', 'C06'), 'per-size-at-reference-ignored')
+def _per_size_at_ref(ctx):
+    # per.py BitString / ArrayType have no set_size_range: a SIZE constraint written at a reference to a
+    # BIT STRING / SEQUENCE OF / SET OF type ('e Al1 (SIZE(1..9))') is not PER-visible to the library
+    if ctx.codec not in ('per', 'uper'):
+        return False
+    for n in ctx.tnodes():
+        if n.ty.kind == 'REF' and n.ty.size is not None and n.r.base.kind in ('BIT STRING', 'SEQUENCE OF', 'SET OF'):
+            return True
+    return False
+
+
+@finding('C07', 'nested-ext-choice-unknown-alternative')
+def _c07_nested_choice(ctx):
+    # ber.py / oer.py Choice: the tag table of a CHOICE lists the known tags of a nested untagged CHOICE;
+    # an alternative added to the nested (extensible) CHOICE by V2 is not attributed to it
+    if ctx.codec not in ('ber', 'der', 'oer'):
+        return False
+    from . import gen
+    for n in ctx.tnodes():
+        if n.r.base.kind != 'CHOICE':
+            continue
+        for m in n.r.base.all_members():
+            if m.auto is not None:
+                continue
+            layers, r = asn.effective_tags(ctx.spec, m.ty, n.r.mod)
+            if not layers and r.base.kind == 'CHOICE' and gen.is_ext(ctx.spec, r.base, r.mod):
+                return True
     return False
